@@ -148,7 +148,7 @@ def generate(spec: str, cfg: str, prefix: str, dest: str, **kw) -> dict:
         cleanup(wd)
 
 
-def validate_traces(spec: str, cfg: str, trace_file: str, *, timeout: int = 900,
+def validate_traces(spec: str, cfg: str, trace_file: str, *, timeout: int = 3600,
                     heap: str = "4g") -> List[dict]:
     """Runs a trace spec over one ndjson file; returns the verdict records.
     Raises MachineryError unless exactly one verdict per trace came back."""
@@ -173,7 +173,7 @@ def validate_traces(spec: str, cfg: str, trace_file: str, *, timeout: int = 900,
 
 
 def validate_sharded(spec: str, cfg: str, shard_files: List[str], *, jobs: int = 8,
-                     timeout: int = 900) -> List[dict]:
+                     timeout: int = 3600) -> List[dict]:
     out: List[dict] = []
     with ThreadPoolExecutor(max_workers=jobs) as ex:
         for vs in ex.map(lambda f: validate_traces(spec, cfg, f, timeout=timeout), shard_files):
